@@ -163,6 +163,52 @@ Unit(
 )
 
 
+# the order of the attempts: the referencing object first ...
+F = "call:providers.FQN._find_obj_fqn"
+Unit(
+    "providers.FQN._find_referenced_obj.first-attempt",
+    target=FIND_REF,
+    region="assign:ret",
+    props=["C10"],
+    params={"p": "obj", "name": "str", "cls": "any"},
+    captured={"current_obj": "obj", "self": "obj:FQN", "_find_obj_fqn": "any"},
+    requires=["self.scope_redirection_logic is None"],
+    calls={"_find_obj_fqn": "providers.FQN._find_obj_fqn"},
+    modifies=[],
+    preserves=FP,
+    ensures=[
+        ("C10-the-search-starts-at-the-referencing-object",
+         f"n_calls('{F}') == 1 and evn('{F}', 0).args['p'] == p and evn('{F}', 0).args['fqn_name'] == name"
+         f" and evn('{F}', 0).args['cls'] == cls and final_ret == evn('{F}', 0).result"),
+    ],
+    raises=None,
+    canary="final_ret is None",
+)
+# ... then ONE parent link outward per iteration, returning the first hit
+Unit(
+    "providers.FQN._find_referenced_obj.next-ancestor",
+    target=FIND_REF,
+    region="body:while:hasattr(p, 'parent')",
+    props=["C10"],
+    params={"p": "obj", "name": "str", "cls": "any"},
+    captured={"current_obj": "obj", "self": "obj:FQN", "_find_obj_fqn": "any"},
+    requires=["self.scope_redirection_logic is None"],
+    calls={"_find_obj_fqn": "providers.FQN._find_obj_fqn"},
+    returns="any",
+    modifies=[],
+    preserves=FP,
+    ensures=[
+        ("C10-one-parent-link-outward-per-attempt",
+         f"final_p == old(p.parent) and n_calls('{F}') == 1 and evn('{F}', 0).args['p'] == old(p.parent)"
+         f" and evn('{F}', 0).args['fqn_name'] == name and evn('{F}', 0).args['cls'] == cls"),
+        ("C10-the-first-hit-is-returned-and-nothing-else",
+         f"(result == evn('{F}', 0).result) if truthy(evn('{F}', 0).result) else (result is None)"),
+    ],
+    raises=None,
+    canary="result is None",
+)
+
+
 # --------------------------------------------------------------------------
 # Bounded battery (never counted as proved): the whole statement, natively.  Random package trees with
 # sibling-unique (but globally repeated) names, classes with `extends` references, one reference per model placed
